@@ -9,7 +9,7 @@ vmmon.install_loader_hook()
 class Run:
     __slots__ = ('accepted', 'errors', 'log', 'stops', 'thread_exc', 'range',
                  'job', 'compile_exc', 'budget_exhausted', 'mon',
-                 'image_faults', 'fp_changed')
+                 'image_faults', 'fp_changed', 'leftovers')
 
     def dev_events(self, ok_only=False):
         return [e for e in self.log if e[0] in ('dev', 'lan')
@@ -52,6 +52,7 @@ def run_script(text, decisions=None, keep_job=False, job=None, budget=100000,
     r.mon = None
     r.image_faults = []
     r.fp_changed = False
+    r.leftovers = []
     if job is None:
         try:
             job = ScriptJob.from_string(text)
@@ -82,6 +83,20 @@ def run_script(text, decisions=None, keep_job=False, job=None, budget=100000,
         vmmon.LAST_LOAD.clear()
         job.execute()
         r.image_faults = list(vmmon.LAST_LOAD.get('faults') or [])
+        if not env.MACHINE_STOPS and not r.budget_exhausted and \
+                stop_at is None:
+            # quiescence after a complete run (no per-instruction cost)
+            m = job._machine
+            n = len(m._vm_math._eval_stack._stack)
+            if n:
+                r.leftovers.append('{} value(s) left on the evaluation stack'
+                                   .format(n))
+            top = m._call_stack._top
+            if top.parent is not None:
+                r.leftovers.append('a frame left on the call stack')
+            if m._vm_io._unnamed:
+                r.leftovers.append('pending output {!r}'.format(
+                    m._vm_io._unnamed[:3]))
         if r.mon is not None:
             r.budget_exhausted = r.mon.exhausted
             r.mon.finish(stopped=bool(env.MACHINE_STOPS)
